@@ -414,6 +414,87 @@ struct TypeRunner {
     c.stat("enc_ops");
   }
 
+  // ---- C15: handles travel out of band intact ----
+  void mode_handles(const T& v) {
+    if constexpr (P::has_handle) {
+      WResult probe = encode_all(v, {}, false);
+      if (!probe.ok) return;
+      const std::size_t nh = probe.pushed.size();
+      c.stat("handles in value: " + std::to_string(nh > 4 ? 5 : nh) + (nh > 4 ? "+" : ""));
+      static const nop::ErrorStatus errs[] = {nop::ErrorStatus::IOError, nop::ErrorStatus::InvalidHandleValue, nop::ErrorStatus::SystemError,
+                                              nop::ErrorStatus::WriteLimitReached, nop::ErrorStatus::ProtocolError};
+      // (1) the writer answers each PushHandle with an arbitrary reference, or fails one of them
+      for (int round = 0; round < 2; round++) {
+        std::vector<nop::Status<nop::HandleReference>> script;
+        std::vector<long long> want_refs;
+        std::string refs;
+        const long long fail_at = (nh && round == 1) ? static_cast<long long>(rng.below(nh)) : -1;
+        nop::ErrorStatus fe = errs[rng.below(sizeof(errs) / sizeof(errs[0]))];
+        for (std::size_t i = 0; i < nh; i++) {
+          if (i) refs += ',';
+          if (static_cast<long long>(i) == fail_at) { script.push_back(fe); refs += status_name(fe); continue; }
+          static const long long pool_refs[] = {0, 1, -1, 2, 127, 128, -64, -65, 300, 70000, 5000000000LL, INT64_MAX, INT64_MIN, -129};
+          long long ref = rng.chance(60) ? pool_refs[rng.below(sizeof(pool_refs) / sizeof(pool_refs[0]))] : static_cast<long long>(rng.next());
+          script.push_back(static_cast<nop::HandleReference>(ref));
+          want_refs.push_back(ref);
+          refs += std::to_string(ref);
+        }
+        if (refs.empty()) refs = "-";
+        WResult w = encode_all(v, script);
+        c.line('M', "enc " + tid + " " + dump_str(v, false) + " " + refs);
+        c.line('I', enc_result(w));
+        c.stat("enc_ops");
+        if (fail_at < 0) {
+          if (!w.ok || w.pushed != probe.pushed)
+            c.line('X', "C15 push-order-or-count type=" + tid + " val=" + dump_str(v, false) + " pushed=" + join(w.pushed) + " expected=" + join(probe.pushed));
+          else {
+            // the references presented to GetHandle on read = the ones PushHandle returned, in order
+            HandleIn chan; chan.echo = true;
+            Heap h(w.bytes);
+            nop::Deserializer<HR<nop::BufferReader>> de{h.p, h.n};
+            de.reader().chan = &chan;
+            T dest{};
+            auto st = de.Read(&dest);
+            if (!st || chan.seen != want_refs)
+              c.line('X', "C15 reference-not-intact type=" + tid + " val=" + dump_str(v, false) + " returned-by-writer=" + join(want_refs) +
+                              " presented-to-reader=" + join(chan.seen) + " status=" + (st ? "ok" : status_name(st.error())));
+            c.stat("reference echo reads");
+          }
+        } else {
+          std::vector<long long> upto(probe.pushed.begin(), probe.pushed.begin() + fail_at + 1);
+          if (w.ok || w.err != fe || w.pushed != upto)
+            c.line('X', "C15 push-error-not-returned type=" + tid + " val=" + dump_str(v, false) + " injected=" + status_name(fe) +
+                            " returned=" + (w.ok ? "ok" : status_name(w.err)) + " pushed=" + join(w.pushed));
+          c.stat("failing PushHandle");
+        }
+      }
+      // (2) a resolution error is returned unchanged and stops the read
+      for (std::size_t k = 0; k < nh && k < 6; k++) {
+        nop::ErrorStatus fe = errs[rng.below(sizeof(errs) / sizeof(errs[0]))];
+        HandleIn chan; chan.table = probe.pushed; chan.fail_at = static_cast<long long>(k); chan.fail_err = fe;
+        Heap h(probe.bytes);
+        nop::Deserializer<HR<nop::BufferReader>> de{h.p, h.n};
+        de.reader().chan = &chan;
+        T dest{};
+        auto st = de.Read(&dest);
+        if (st || st.error() != fe || chan.seen.size() != k + 1)
+          c.line('X', "C15 resolution-error-changed type=" + tid + " call=" + std::to_string(k) + " injected=" + status_name(fe) +
+                          " returned=" + (st ? "ok" : status_name(st.error())) + " resolutions=" + std::to_string(chan.seen.size()) + " bytes=" + hex(probe.bytes));
+        c.stat("failing GetHandle");
+      }
+      // (3) handle tables that resolve only some of the references
+      for (std::size_t cut : {static_cast<std::size_t>(0), nh / 2, nh}) {
+        std::vector<long long> table(probe.pushed.begin(), probe.pushed.begin() + cut);
+        dec_lines(rng.chance(50) ? "buf" : "b:" + std::to_string(probe.bytes.size()) + ":buf", probe.bytes, table);
+      }
+      // (4) corrupted type tags / references / everything else
+      for (auto& m : mutations(probe.bytes, c.thorough ? 256 : 6)) {
+        dec_lines("buf", m, probe.pushed);
+        c.stat("mutants");
+      }
+    }
+  }
+
   // ---- C05: every strict prefix is rejected by every reader ----
   void mode_cut(const T& v) {
     WResult w = encode_all(v, {}, false);
@@ -687,6 +768,7 @@ struct TypeRunner {
       else if (m == "hostile") { T o{}; fill(rng, o, 0); mode_hostile(v, o); }
       else if (m == "prior") { T p{}; fill(rng, p, 0); mode_prior(v, p); }
       else if (m == "fault") mode_fault(v);
+      else if (m == "handles") mode_handles(v);
       else { std::fprintf(stderr, "unknown mode %s\n", m.c_str()); std::exit(2); }
       c.stat("values");
     }
